@@ -30,6 +30,28 @@ def job_real(job):
   return out
 
 
+def job_real_root(job):
+  """like job_real, with an import root: job = (text, [preds], import_root)"""
+  text, preds, root = job
+  out = {}
+  try:
+    with R.quiet():
+      rules = R.parse.ParseFile(text, import_root=root)['rule']
+  except Exception as e:  # noqa: BLE001
+    k = R.classify(e)
+    return {p: {'kind': k, 'message': R.diag_text(e)[:400], 'exc_type': type(e).__name__} for p in preds}
+  for p in preds:
+    o = R.run_sqlite(text, p, rules=rules)
+    d = {'kind': o.kind, 'message': getattr(o, 'message', '')[:400]}
+    if o.kind == 'ok':
+      d['header'] = o.header
+      d['rows'] = o.rows
+    elif hasattr(o, 'exc_type'):
+      d['exc_type'] = o.exc_type
+    out[p] = d
+  return out
+
+
 def canon_real_rows(res, pred):
   """-> sorted list of canonical JSON rows (dict col -> value)."""
   rows = []
